@@ -164,13 +164,162 @@ func c13Positions(ids []string, L []cid.Cid) []int {
 	return out
 }
 
+// c13TwoWriters: logs with a fork. Two devices write a0,a1 | a2,a3 || b2,b3 | a4 (a4 merges both branches). There the order
+// is not the write order of one device; the reference is taken from the statement itself: the full listing must be the same
+// on every replica and respect causality, and every (since, until, reverse) listing must be the contiguous range of that
+// full listing.
+func c13TwoWriters(ctx context.Context, rep *verifkit.Report, w *vWorld) {
+	g, _, err := NewGroupMultiMember()
+	if err != nil {
+		rep.Inconclusivef("group: %v", err)
+		return
+	}
+	ra, rb := w.newReplica("CA", nil), w.newReplica("CB", nil)
+	agc, bgc := ra.mustOpen(g), rb.mustOpen(g)
+	// both know each other's chain key from counter 0 (message listings)
+	for _, p := range [][2]*vReplica{{ra, rb}, {rb, ra}} {
+		from, to := p[0], p[1]
+		md, _ := to.ss.GetOwnMemberDeviceForGroup(g)
+		fmd, _ := from.ss.GetOwnMemberDeviceForGroup(g)
+		ann, err := from.ss.GetShareableChainKey(ctx, g, md.Member())
+		if err == nil {
+			err = to.ss.RegisterChainKey(ctx, g, fmd.Device(), ann)
+		}
+		if err != nil {
+			rep.Inconclusivef("two-writer set-up: %v", err)
+			return
+		}
+	}
+	type wr struct {
+		gc   *GroupContext
+		name string
+	}
+	A, B := wr{agc, "a"}, wr{bgc, "b"}
+	before := map[string][]string{} // entry -> entries that must come before it (per store)
+	last := map[string]string{}     // writer+store -> its previous entry
+	names := map[string]string{}
+	seen := map[string]string{} // reader+store -> newest entry of the other writer it has received
+	write := func(x wr, label string) bool {
+		for _, store := range []string{"metadata", "message"} {
+			var c cid.Cid
+			if store == "metadata" {
+				op, err := x.gc.MetadataStore().SendAppMetadata(ctx, []byte(label))
+				if err != nil {
+					rep.Inconclusivef("two-writer write: %v", err)
+					return false
+				}
+				c = op.GetEntry().GetHash()
+			} else {
+				op, err := x.gc.MessageStore().AddMessage(ctx, []byte(label))
+				if err != nil {
+					rep.Inconclusivef("two-writer write: %v", err)
+					return false
+				}
+				c = op.GetEntry().GetHash()
+			}
+			id := store + "/" + c.String()
+			names[id] = label
+			if p, ok := last[x.name+store]; ok {
+				before[id] = append(before[id], p)
+			}
+			if s, ok := seen[x.name+store]; ok { // the other writer's entries this replica had received when it wrote
+				before[id] = append(before[id], s)
+			}
+			last[x.name+store] = id
+		}
+		return true
+	}
+	sync := func(dst, src wr) bool {
+		if err := vDeliver(ctx, dst.gc.MetadataStore(), vHeads(src.gc.MetadataStore())); err != nil {
+			rep.Inconclusivef("two-writer sync: %v", err)
+			return false
+		}
+		if err := vDeliver(ctx, dst.gc.MessageStore(), vHeads(src.gc.MessageStore())); err != nil {
+			rep.Inconclusivef("two-writer sync: %v", err)
+			return false
+		}
+		for _, store := range []string{"metadata", "message"} {
+			if l, ok := last[src.name+store]; ok {
+				seen[dst.name+store] = l
+			}
+		}
+		return true
+	}
+	ok := write(A, "a0") && write(A, "a1") && sync(B, A) &&
+		write(A, "a2") && write(B, "b2") && write(A, "a3") && write(B, "b3") &&
+		sync(A, B) && sync(B, A) && write(A, "a4") && sync(B, A)
+	if !ok {
+		return
+	}
+	for _, store := range []string{"metadata", "message"} {
+		listerOf := func(x wr) c13Lister {
+			if store == "metadata" {
+				return c13MetaLister(x.gc.MetadataStore())
+			}
+			return c13MsgLister(x.gc.MessageStore())
+		}
+		fullA, errA := listerOf(A)(ctx, nil, nil, false)
+		fullB, errB := listerOf(B)(ctx, nil, nil, false)
+		rep.Case("two-writers/" + store + "/full-listing")
+		if errA != nil || errB != nil {
+			rep.Violate("C13/two-writers/listing-error/"+store, fmt.Sprintf("%v / %v", errA, errB), nil)
+			continue
+		}
+		if fmt.Sprint(fullA) != fmt.Sprint(fullB) {
+			rep.Violate("C13/two-writers/replicas-list-differently/"+store, "two replicas holding the same forked log list it in different orders", map[string]interface{}{"a": len(fullA), "b": len(fullB)})
+			continue
+		}
+		pos := map[string]int{}
+		for i, id := range fullA {
+			pos[store+"/"+id] = i
+		}
+		wantN := 0
+		for id := range names {
+			if len(id) > len(store) && id[:len(store)+1] == store+"/" {
+				wantN++
+				if _, in := pos[id]; !in {
+					rep.Violate("C13/two-writers/entry-missing/"+store, "the full listing of a forked log misses entry "+names[id], nil)
+				}
+			}
+		}
+		causalOK := true
+		for id, preds := range before {
+			for _, p := range preds {
+				pi, ok1 := pos[p]
+				ii, ok2 := pos[id]
+				if ok1 && ok2 && pi > ii {
+					causalOK = false
+					rep.Violate("C13/two-writers/listing-against-causality/"+store, fmt.Sprintf("%s is listed before %s although it was written knowing it", names[id], names[p]), nil)
+				}
+			}
+		}
+		if !causalOK || len(fullA) < wantN {
+			continue
+		}
+		var L []cid.Cid
+		for _, id := range fullA {
+			c, err := cid.Decode(id)
+			if err != nil {
+				rep.Inconclusivef("cid: %v", err)
+				return
+			}
+			L = append(L, c)
+		}
+		c13CheckAll(ctx, rep, store, "two-writers@a", listerOf(A), L)
+		c13CheckAll(ctx, rep, store, "two-writers@b", listerOf(B), L)
+		rep.Count("two_writer_logs_checked", 1)
+	}
+	_ = agc.Close()
+	_ = bgc.Close()
+}
+
 func TestVerifC13(t *testing.T) {
 	rep := verifkit.NewReport("C13", "c13-listings")
 	defer rep.Finish(t)
 	rep.Rule = "logs of 0..N entries (N=6 quick, 12 thorough) written by one device in the metadata store and the message store; listed on the writer (local), on a replica fed entry by entry, " +
 		"on replicas fed in one batch and on a replica fed in mixed batches, and after reopening; for every log EVERY (since, until, reverse) with since/until in {nil, each entry, unknown id} " +
 		"is compared with the inclusive range of the causal (write) order. distinct = (store, delivery mode, log length, since, until, reverse)"
-	rep.Assume("single-writer logs: the causal order is the write order")
+	rep.Assume("single-writer logs: the causal order is the write order; for the forked two-writer log (a0 a1 | a2 a3 || b2 b3 | a4) the reference is the full listing itself, which must be the same on both replicas and respect causality, and every range must be a contiguous slice of it")
 	ctx := context.Background()
 	w := newVWorld(t)
 	N := verifkit.Pick(6, 12)
@@ -283,6 +432,7 @@ func TestVerifC13(t *testing.T) {
 	} else {
 		checkReplica("entry-by-entry-reopened", sgc2)
 	}
+	c13TwoWriters(ctx, rep, w)
 	rep.Sample(map[string]interface{}{"store": "metadata", "delivery": "one-batch", "entries": N, "since": "#1", "until": "#4", "reverse": true, "expected_positions": []int{4, 3, 2, 1}})
 	rep.Sample(map[string]interface{}{"store": "message", "delivery": "entry-by-entry", "entries": 3, "since": "unknown", "until": "nil", "expected": "ErrInvalidRange"})
 	rep.Exhaustive = true
